@@ -19,10 +19,18 @@ RULE = ('state = one table (or one ordered pair of tables for dataJoin, one type
         'distinct marker values) x key expressions x flag. Scripts: the same operations through parse_script/'
         'execute_script with the table as a global and counts as float literals. CSV: every typed table of <= R rows x 2 '
         'columns, written by the reference writer, read as one string, as separate line strings and from a script. '
+        'Key kinds: every table of <= N rows whose field a is one of {absent, null, true, false, 1, 0, "1", "true", "null", '
+        '[true], [1]} (values that differ in BareScript but merge under host ==, hash or text conversion) x filters, 21 sort '
+        'key lists, dataTop and dataAggregate with a as category; every ordered pair of such tables of <= 2 rows x dataJoin '
+        'on a and on left a = right b. Time zones: every table of <= 2 rows x 2 datetime columns (January and July instants '
+        'spelled with Z, +00:00, -05:00 and the local offset, date-only texts, null) read with the process time zone set '
+        '(time.tzset, after the implementation was imported under UTC) to zones with daylight saving time, expected local '
+        'time from zoneinfo with the offset in force at each instant. '
         'Non-trivial: filter keeps a proper non-empty subset; sort changes the row order; top drops some but not all rows; '
         'a category aggregates >= 2 non-null values; a calculated value is non-null; a join has a matched pair (name '
         'space: a renamed right field); a script result is a non-empty array; a CSV table has a non-string typed value, '
-        'a quoted cell or date-like invalid text.')
+        'a quoted cell or date-like invalid text; a key-kind table or pair holds two values of one merge pair (true/1, '
+        '1/"1", true/"true", false/0, null-or-absent/"null", [true]/[1]); a time-zone table holds a January and a July datetime.')
 ASSUMPTIONS = [
     'an absent field has the value null (category value, sort key, expression variable)',
     'the order of categories in the results of dataTop and dataAggregate is not stated: results are compared per category '
@@ -34,7 +42,8 @@ ASSUMPTIONS = [
     'tests contradict each other): a call may keep all unmatched left rows unchanged or none of them',
     'aggregates: a category without non-null measure values, non-number measure values (other than for count) and '
     'population-versus-sample standard deviation are UNSPECIFIED (both deviations accepted)',
-    'CSV: the process time zone is UTC (runner); null is written as the text null, or as the empty text in non-string '
+    'CSV: the process time zone is UTC (runner) except in the csv_tz family, which sets TZ and calls time.tzset() itself; '
+    'the expected local times there come from the zoneinfo database of this Python; null is written as the text null, or as the empty text in non-string '
     'columns; an empty text in a column without any non-null value is UNSPECIFIED; strings with line breaks are outside',
     'mc/ref/data.py, mc/ref/values.py and the reference CSV writer are trusted',
 ]
@@ -793,6 +802,272 @@ def fam_csv(arg):
 
 
 # ---------------------------------------------------------------------------------------------------------------------
+# key-kind alphabet: values that differ in BareScript but that host equality / hashing / text conversion would merge
+#   true vs 1, false vs 0, 1 vs '1', true vs 'true', null (= absent) vs 'null', [true] vs [1]
+# family keykinds: filter / sort / top / aggregate on tables whose field a is drawn from it
+# ---------------------------------------------------------------------------------------------------------------------
+
+KA = [('absent', ABSENT), ('null', None), ('true', True), ('false', False), ('1', 1), ('0', 0), ("'1'", '1'), ("'true'", 'true'),
+      ("'null'", 'null'), ('[true]', [True]), ('[1]', [1])]
+KB = [('absent', ABSENT), ('1', 1), ('2', 2), ('true', True), ("'1'", '1')]
+KB_OPS = [0, 1, 2]                                            # b cells of the keykinds family (numeric measure)
+KB_JOIN = {'quick': [0, 1], 'thorough': [0, 1, 3, 4]}         # b cells of the join_keykinds family
+
+
+def build_krow(cell):
+    ia, ib = cell
+    row = {}
+    va, vb = KA[ia][1], KB[ib][1]
+    if va is not ABSENT:
+        row['a'] = list(va) if isinstance(va, list) else va
+    if vb is not ABSENT:
+        row['b'] = vb
+    return row
+
+
+def build_ktable(rows):
+    """rows: list of [index into KA, index into KB]. Always builds fresh objects (also fresh arrays)."""
+    return [build_krow(c) for c in rows]
+
+
+def krows(b_cells):
+    return [[ia, ib] for ia in range(len(KA)) for ib in b_cells]
+
+
+MERGE_PAIRS = [('true', '1'), ('1', "'1'"), ('true', "'true'"), ('false', '0'), ('absent', "'null'"), ('null', "'null'"), ('[true]', '[1]')]
+
+
+def has_merge_pair(labels):
+    """Two different BareScript values that a key built with host ==, hash() or text conversion would merge."""
+    labels = set(labels)
+    return any(x in labels and y in labels for x, y in MERGE_PAIRS)
+
+
+K_FILTERS = [B('==', V('a'), N(1)), B('==', V('a'), V('b')), V('a')]
+K_SORTS = [[]] + [[k] for k in (['a'], ['a', True], ['b'], ['b', True])] + \
+          [[k1, k2] for k1 in (['a'], ['a', True], ['b'], ['b', True]) for k2 in (['a'], ['a', True], ['b'], ['b', True])]     # 21
+K_TOPS = [(1, ['a']), (2, ['a']), (1, ['a', 'b']), (2, ['b', 'a'])]
+K_AGGS = [([('b', 'count', 'b')], ['a']), ([('b', 'sum', 'b')], ['a']), ([('b', 'max', 'top'), ('b', 'average', 'avg')], ['a', 'b'])]
+K_OPS = [('filter', x) for x in K_FILTERS] + [('sort', x) for x in K_SORTS] + [('top', x) for x in K_TOPS] + [('aggregate', x) for x in K_AGGS]
+
+
+def check_keykinds(case, acc):
+    rows = case['rows']
+    table = build_ktable(rows)
+    for k, (kind, par) in enumerate(K_OPS):
+        if case.get('variant', k) != k:
+            continue
+        if kind == 'aggregate' and not table:
+            acc.unspecified += 1
+            continue
+        work = build_ktable(rows)
+        if kind == 'filter':
+            text = rd.expr_text(par)
+            label = f'dataFilter(t, {text!r})'
+            ok, res = call(acc, 'dataFilter', [work, text])
+            d = ok and diff_rows(res, rd.ref_filter(table, par), 'dataFilter')
+        elif kind == 'sort':
+            label = f'dataSort(t, {par})'
+            ok, res = call(acc, 'dataSort', [work, [list(x) for x in par]])
+            d = ok and diff_rows(res, rd.ref_sort(table, par), 'dataSort (stable, order of the value model)')
+        elif kind == 'top':
+            label = f'dataTop(t, {par[0]}, {par[1]})'
+            ok, res = call(acc, 'dataTop', [work, par[0], list(par[1])])
+            d = ok and diff_top(res, table, par[0], par[1])
+        else:
+            model = agg_model(par[0], par[1])
+            label = f'dataAggregate(t, {model})'
+            ok, res = call(acc, 'dataAggregate', [work, model])
+            d = ok and diff_aggregate(res, table, par[1], par[0], acc)
+        acc.traces += 1
+        c2 = dict(case, variant=k, op=label, table=table)
+        if not ok:
+            acc.violation(c2, 'a result', res, f'{label.split("(")[0]} raised')
+        elif d:
+            acc.violation(c2, d[0], canon_flat(res), d[1])
+        if k % 5 == 0:
+            acc.outcome((k, tkey(res) if ok else res))
+    return has_merge_pair(KA[c[0]][0] for c in rows)
+
+
+def ktable_shards(nrows, nchunks):
+    n = len(krows(KB_OPS))
+    return [(nrows, first, chunk, ci == 0) for first in range(n) for ci, chunk in enumerate(split(list(range(n)), nchunks))]
+
+
+def fam_keykinds(arg):
+    nrows, first, seconds, with_short = arg
+    acc = Acc('keykinds')
+    cells = krows(KB_OPS)
+
+    def tables():
+        if with_short:
+            if first == 0:
+                yield []
+            yield [cells[first]]
+        for n in range(0, nrows - 1):
+            for second in seconds:
+                for rest in itertools.product(cells, repeat=n):
+                    yield [cells[first], cells[second]] + list(rest)
+    for rows in tables():
+        acc.cases += 1
+        acc.states += 1
+        if check_keykinds({'rows': rows}, acc):
+            acc.nontrivial += 1
+        if len(rows) == 2 and rows[0][0] == 2 and rows[1][0] == 4:
+            acc.sample({'table': build_ktable(rows), 'operations': 'keykinds'})
+    return acc.result()
+
+
+# ---------------------------------------------------------------------------------------------------------------------
+# family join_keykinds: join keys from the key-kind alphabet
+# ---------------------------------------------------------------------------------------------------------------------
+
+K_JOINS = [(V('a'), None), (V('a'), V('b'))]
+
+
+def kjoin_tables(tier):
+    cells = krows(KB_JOIN[tier])
+    return [[]] + [[r] for r in cells] + [[r1, r2] for r1 in cells for r2 in cells]
+
+
+def check_join_keykinds(case, acc):
+    lrows, rrows = case['left'], case['right']
+    left, right = build_ktable(lrows), build_ktable(rrows)
+    for k, (le, re_) in enumerate(K_JOINS):
+        if case.get('variant', k) != k:
+            continue
+        args = join_args(build_ktable(lrows), build_ktable(rrows), le, re_, None, 'omitted')
+        label = f'dataJoin(l, r, {args[2:]})'
+        ok, res = call(acc, 'dataJoin', args)
+        blocks = rd.ref_join(left, right, le, re_)
+        acc.traces += 1
+        c2 = dict(case, variant=k, op=label, left_table=left, right_table=right)
+        if not ok:
+            acc.violation(c2, canon_flat(rd.join_flatten(blocks, False)), res, 'dataJoin raised')
+            continue
+        d = diff_join(res, blocks, acc)
+        if d:
+            acc.violation(c2, d[0], canon_flat(res), d[1])
+        acc.outcome((k, len(left), len(right), sum(len(b[1]) for b in blocks if b[0] == 'matched')))
+    return has_merge_pair([KA[c[0]][0] for c in lrows + rrows] + [KB[c[1]][0] for c in rrows])
+
+
+def fam_join_keykinds(arg):
+    tier, lefts = arg
+    acc = Acc('join_keykinds')
+    tables = kjoin_tables(tier)
+    for li in lefts:
+        for ri, right in enumerate(tables):
+            acc.cases += 1
+            acc.states += 1
+            if check_join_keykinds({'left': tables[li], 'right': right}, acc):
+                acc.nontrivial += 1
+            if ri == (li * 7 + 3) % len(tables) and len(right) == 2:
+                acc.sample({'left': build_ktable(tables[li]), 'right': build_ktable(right), 'operations': 'dataJoin'})
+    return acc.result()
+
+
+# ---------------------------------------------------------------------------------------------------------------------
+# family csv_tz: datetime columns read under a process time zone with daylight saving time
+# ---------------------------------------------------------------------------------------------------------------------
+
+TZ_ZONES = {'quick': ['America/New_York', 'Australia/Lord_Howe'],
+            'thorough': ['America/New_York', 'Australia/Lord_Howe', 'Pacific/Chatham', 'Europe/London']}
+TZ_INSTANTS = [datetime.datetime(2024, 1, 15, 12, 0, 0), datetime.datetime(2024, 1, 15, 2, 30, 0),
+               datetime.datetime(2024, 7, 15, 12, 0, 0), datetime.datetime(2024, 7, 15, 23, 45, 0, 250000)]      # UTC
+TZ_SPELLINGS = ['Z', '+00:00', '-05:00', 'local']
+TZ_CELLS = [('null',), ('date', 2024, 1, 15), ('date', 2024, 7, 15)] + [('instant', i, sp) for i in range(len(TZ_INSTANTS)) for sp in TZ_SPELLINGS]   # 19
+TZ_SECOND = {'quick': [0, 2, 3, 13, 14], 'thorough': list(range(len(TZ_CELLS)))}
+# quick second column: null, the July date, January noon as Z, July noon at -05:00, July noon at the zone's own offset
+
+
+def tz_cell(cell, zone):
+    """-> (text, expected value)"""
+    if cell[0] == 'null':
+        return 'null', None
+    if cell[0] == 'date':
+        return f'{cell[1]:04d}-{cell[2]:02d}-{cell[3]:02d}', datetime.datetime(cell[1], cell[2], cell[3])     # local midnight
+    instant = TZ_INSTANTS[cell[1]]
+    offset = {'Z': 0, '+00:00': 0, '-05:00': -300, 'local': rd.zone_offset_minutes(instant, zone)}[cell[2]]
+    return rd.instant_text(instant, offset, cell[2] == 'Z'), rd.zone_local(instant, zone)
+
+
+def set_zone(zone):
+    import os  # pylint: disable=import-outside-toplevel
+    import time  # pylint: disable=import-outside-toplevel
+    if os.environ.get('TZ') != zone:
+        os.environ['TZ'] = zone
+        time.tzset()
+
+
+def check_csv_tz(case, acc):
+    zone = case['tz']
+    impl()                 # the implementation is imported under the runner's TZ=UTC, as in every other family ...
+    set_zone(zone)         # ... and the process time zone changes afterwards (each shard and each replay is its own process)
+    cols = [[tz_cell(TZ_CELLS[i], zone) for i in col] for col in case['cols']]
+    rows = list(zip(*cols))
+    lines = [','.join(CSV_FIELDS)] + [','.join(rd.csv_quote(text) for text, _ in row) for row in rows]
+    want = [dict(zip(CSV_FIELDS, [v for _, v in row])) for row in rows]
+    text = '\n'.join(lines)
+    for k, mode in enumerate(CSV_MODES):
+        if case.get('variant', k) != k:
+            continue
+        if mode == 'one string':
+            ok, res = call(acc, 'dataParseCSV', [text])
+        elif mode == 'line strings':
+            ok, res = call(acc, 'dataParseCSV', list(lines))
+        else:
+            ok, res = run_script(acc, CSV_SCRIPT, {'text': text})
+        acc.traces += 1
+        c2 = dict(case, variant=k, op=f'dataParseCSV as {mode} under TZ={zone}', csv=lines)
+        if not ok:
+            acc.violation(c2, canon_flat(want), res, 'dataParseCSV raised instead of returning the typed table')
+        elif not isinstance(res, list) or any(not isinstance(r, dict) for r in res) or len(res) != len(want):
+            acc.violation(c2, canon_flat(want), canon_flat(res), 'dataParseCSV did not return one row object per line')
+        else:
+            for ri, (got, exp) in enumerate(zip(res, want)):
+                bad = [f for f in CSV_FIELDS if canon_flat(got.get(f)) != canon_flat(exp[f])]
+                if bad:
+                    acc.violation(c2, canon_flat(want), canon_flat(res),
+                                  f'row {ri} field {bad[0]}: read back {got.get(bad[0])!r}, the text {lines[ri + 1].split(",")[CSV_FIELDS.index(bad[0])]} '
+                                  f'is {exp[bad[0]]!r} local time in {zone}')
+                    break
+    acc.outcome((zone, tuple(case['cols'][0][:1]), tuple(case['cols'][1][:1])))
+    months = {TZ_INSTANTS[c[1]].month if c[0] == 'instant' else c[2] for col in case['cols'] for c in (TZ_CELLS[i] for i in col) if c[0] != 'null'}
+    return len(months) > 1      # the table holds a January and a July datetime (different offsets in force)
+
+
+def csv_tz_size(tier, nrows):
+    return len(TZ_ZONES[tier]) * sum((len(TZ_CELLS) * len(TZ_SECOND[tier])) ** r for r in range(nrows + 1))
+
+
+def csv_tz_shards(tier, nrows):
+    out = []
+    for zone in TZ_ZONES[tier]:
+        for r in range(nrows + 1):
+            combos = len(TZ_CELLS) ** r
+            for chunk in split(list(range(combos)), max(1, min(combos, (combos * len(TZ_SECOND[tier]) ** r) // 8000))):
+                out.append((tier, zone, r, chunk[0], chunk[-1] + 1))
+    return out
+
+
+def fam_csv_tz(arg):
+    tier, zone, r, lo, hi = arg
+    acc = Acc('csv_tz')
+    for c1 in itertools.islice(itertools.product(range(len(TZ_CELLS)), repeat=r), lo, hi):
+        for c2 in itertools.product(TZ_SECOND[tier], repeat=r):
+            acc.cases += 1
+            acc.states += 1
+            if check_csv_tz({'tz': zone, 'cols': [list(c1), list(c2)]}, acc):
+                acc.nontrivial += 1
+            if r == 1 and c1 == (9,) and c2 == (14,):
+                acc.sample({'tz': zone, 'csv': ['a,b', ','.join(tz_cell(TZ_CELLS[i], zone)[0] for i in (9, 14))],
+                            'expected': [repr(tz_cell(TZ_CELLS[i], zone)[1]) for i in (9, 14)]})
+    return acc.result()
+
+
+# ---------------------------------------------------------------------------------------------------------------------
 # families
 # ---------------------------------------------------------------------------------------------------------------------
 
@@ -806,6 +1081,7 @@ def families(tier):
     nt = ntables(nrows)
     kt = len(key_tables(tier))
     nn = len(name_tables(tier))
+    nkj = len(kjoin_tables(tier))
     cells = ', '.join(label for label, _ in CELLS)
     tb = f'every table of <= {nrows} rows over fields a,b with cells from {{{cells}}}'
     return [
@@ -829,16 +1105,28 @@ def families(tier):
         Family('csv', fam_csv, csv_shards(crows),
                f'every typed table of <= {crows} rows x 2 columns, column types {TYPES}, cell alphabets of sizes '
                f'{[len(ALPHA[t]) for t in TYPES]} x 3 reading modes', expected=csv_size(crows)),
+        Family('keykinds', fam_keykinds, ktable_shards(nrows, 2 if quick else 11),
+               f'every table of <= {nrows} rows with a from {{{", ".join(x for x, _ in KA)}}} and b from {{absent, 1, 2}} x {len(K_FILTERS)} filters, '
+               f'{len(K_SORTS)} sort key lists, {len(K_TOPS)} dataTop calls, {len(K_AGGS)} aggregations with a as category',
+               expected=sum(len(krows(KB_OPS)) ** k for k in range(nrows + 1))),
+        Family('join_keykinds', fam_join_keykinds, [(tier, c) for c in split(list(range(nkj)), 64)],
+               f'every ordered pair of the {nkj} tables of <= 2 rows with a from the same key-kind alphabet and b from '
+               f'{[KB[i][0] for i in KB_JOIN[tier]]} x keys: a, left a = right b', expected=nkj * nkj),
+        Family('csv_tz', fam_csv_tz, csv_tz_shards(tier, 2),
+               f'process time zones {TZ_ZONES[tier]} (set with time.tzset at the start of the shard): every table of <= 2 rows x 2 datetime '
+               f'columns, first column from {len(TZ_CELLS)} cells (null, 2 date texts, 4 instants in January/July x spellings {TZ_SPELLINGS}), '
+               f'second from {len(TZ_SECOND[tier])} of them x 3 reading modes', expected=csv_tz_size(tier, 2)),
     ]
 
 
 _CHECKS = {'filter': check_filter, 'sort': check_sort, 'top': check_top, 'aggregate': check_aggregate, 'calc': check_calc,
-           'join_keys': check_join_keys, 'join_names': check_join_names, 'script': check_script, 'csv': check_csv}
+           'join_keys': check_join_keys, 'join_names': check_join_names, 'script': check_script, 'csv': check_csv,
+           'keykinds': check_keykinds, 'join_keykinds': check_join_keykinds, 'csv_tz': check_csv_tz}
 
 
 def replay(family, case):
     acc = Acc(family)
-    keep = {k: v for k, v in case.items() if k in ('rows', 'left', 'right', 'types', 'cols', 'variant')}
+    keep = {k: v for k, v in case.items() if k in ('rows', 'left', 'right', 'types', 'cols', 'variant', 'tz')}
     _CHECKS[family](keep, acc)
     res = acc.result()
     return {'differs': bool(res['nviol'] or res['nknown']), 'violations': res['violations'] + res['known_violations'],
